@@ -13,6 +13,7 @@ import os
 from typing import Any, Callable, List, Optional
 
 from . import aio
+from .clients import Client
 from .core import Chooser, digest
 from .explore import ExecResult
 from .harness import default_observation, describe, generic_violations
@@ -82,3 +83,36 @@ def case_execute(build: Callable[[Any, Callable[[int, str], int]], tuple],
         return ExecResult(chooser.trace, viol, digest(obs), nontrivial, w.sigs, sample)
 
     return execute
+
+
+class GuardClient(Client):
+    """mc.clients.Client + the guard a real client obeys: frames are sent only once the handshake response
+    (101 / 200) was received.  ws/h1 frames are ('cmd', k, 'ws_raw', bytes)."""
+
+    def upgraded(self) -> bool:
+        if self.h1 is not None:
+            return self.h1.switched
+        st = self.h2.streams.get(1)
+        return st is not None and st["status"] == 200
+
+    def cmd_enabled(self, ev: tuple) -> bool:
+        if ev[2] == "ws_wait":  # pure guard: lets a source wait for the handshake response
+            return self.upgraded()
+        if ev[2] == "ws_raw":
+            return self.h1 is not None and self.h1.switched
+        if ev[2] == "ws_data":
+            st = self.h2.streams.get(ev[3])
+            if st is None or st["status"] != 200:
+                return False
+        return super().cmd_enabled(ev)
+
+    def command(self, ev: tuple) -> bytes:
+        if ev[2] == "ws_wait":
+            return b""
+        if ev[2] == "ws_raw":
+            return ev[3]
+        return super().command(ev)
+
+
+def make_guard_client(world: Any, k: int, opts: dict) -> Client:
+    return GuardClient(opts)
